@@ -363,18 +363,41 @@ def t3(ctx, res):
     pe = ctx.func("parse_element")
     inf = ctx.inf
     rows = {}
-    for n in walk_own(pe.body):
-        it_ = deref_const(ctx, pe, n.iter) if isinstance(n, ast.For) else None
-        if isinstance(n, ast.For) and isinstance(it_, (ast.Tuple, ast.List)):
-            for r in it_.elts:
-                if isinstance(r, ast.Tuple) and len(r.elts) == 2 and isinstance(r.elts[0], ast.Constant) \
-                        and isinstance(r.elts[0].value, str) and isinstance(r.elts[1], ast.Name):
+    # parse_element together with the private helpers it calls unconditionally as statements (the loop moved into a helper)
+    scan = [(pe, list(pe.body))]
+    for st in pe.body:
+        if isinstance(st, ast.Expr) and isinstance(st.value, ast.Call) and isinstance(st.value.func, ast.Name):
+            r_ = ctx.prog.resolve_in(pe, st.value.func.id)
+            if r_ and r_[0] == "func" and hasattr(r_[1], "body") and r_[1].module is pe.module and r_[1].name.startswith("_"):
+                scan.append((r_[1], list(r_[1].body)))
+
+    def pair_rows(fn_, it):
+        """(keyword, parser name) pairs of a literal tuple of pairs, or of <dict display>.items()"""
+        it = deref_const(ctx, fn_, it)
+        if isinstance(it, ast.Call) and isinstance(it.func, ast.Attribute) and it.func.attr == "items" and not it.args:
+            d_ = it.func.value
+            if isinstance(d_, ast.Name):
+                local = [b[1] for b in ctx.inf.bindings(fn_).get(d_.id, []) if b[0] == "assign"] if hasattr(fn_, "locals") and d_.id in fn_.locals() else []
+                d_ = local[0] if len(local) == 1 else deref_const(ctx, fn_, d_)
+            if isinstance(d_, ast.Dict):
+                return [(k_, v_) for k_, v_ in zip(d_.keys, d_.values)]
+            return []
+        if isinstance(it, (ast.Tuple, ast.List)):
+            return [(r.elts[0], r.elts[1]) for r in it.elts if isinstance(r, ast.Tuple) and len(r.elts) == 2]
+        return []
+    for fn_, body_ in scan:
+        for n in walk_own(body_):
+            if not isinstance(n, ast.For):
+                continue
+            for k_, v_ in pair_rows(fn_, n.iter):
+                if isinstance(k_, ast.Constant) and isinstance(k_.value, str) and isinstance(v_, ast.Name):
                     # the loop body must store parser(schema, state) under schema[keyword]
                     tk, tp = (norm(n.target.elts[0]), norm(n.target.elts[1])) if isinstance(n.target, ast.Tuple) and len(n.target.elts) == 2 else (None, None)
                     for node, b in find("MV_s[MV_k] = MV_p(MV_s, MV_st)", n.body):
                         if name_of(b["MV_k"]) == tk and name_of(b["MV_p"]) == tp:
-                            rows[r.elts[0].value] = r.elts[1].id
-    for st in pe.body:
+                            rows[k_.value] = v_.id
+    for fn_, body_ in scan:
+      for st in body_:
         if isinstance(st, ast.Assign) and len(st.targets) == 1 and isinstance(st.targets[0], ast.Subscript) \
                 and norm(st.targets[0].value) == "schema" and isinstance(st.targets[0].slice, ast.Constant) \
                 and isinstance(st.value, ast.Call) and isinstance(st.value.func, ast.Name):
@@ -1197,6 +1220,8 @@ def t10(ctx, res):
     std = ctx.func("_get_standard_imports")
     std_names = set()
     for n in walk_own(std.body):
+        if isinstance(n, ast.Name) and isinstance(n.ctx, ast.Load):
+            n = deref_const(ctx, std, n)  # the vocabulary tuple hoisted to module level
         got = str_elts(n) if isinstance(n, (ast.Tuple, ast.List)) else None
         if got:
             std_names |= set(got)
